@@ -701,6 +701,29 @@ theorem C04_command_exit0_iff_wellformed (tool : Tool) (guard fwd : Bool) (amb :
   have hce' : severityOf c ≥ LibErrors.SEVERITY_ERROR := by simpa [isErrorCode, sev] using hce
   omega
 
+/-! ## the fuel of the import look-up is NOT always sufficient (a limit of the model, found by asking whether `importFuel` suffices) -/
+
+/-- two schemas that USE items from each other under new names, three items per clause: `t0.a1` is `t1.b1` is `t0.a2` is `t1.b2` is
+    `t0.a3` is `t1.b3` is `t0.c` -/
+def zigzagFile : File :=
+  ⟨"z.exp",
+   [⟨"t0", 1, [.entity ⟨"c", 3, [], [], [], [], [], false⟩],
+      [⟨.use, "t1", 2, some [⟨"b1", some "a1", 2⟩, ⟨"b2", some "a2", 2⟩, ⟨"b3", some "a3", 2⟩]⟩], none⟩,
+    ⟨"t1", 10, [], [⟨.use, "t0", 11, some [⟨"a2", some "b1", 11⟩, ⟨"a3", some "b2", 11⟩, ⟨"c", some "b3", 11⟩]⟩], none⟩], []⟩
+
+/-- `_witness` — **`importFuel` (schemas + interface CLAUSES + 2) does not bound the chain of renamed ITEMS**: on `zigzagFile` the
+    relation hands `t0.c` out under `a1`, the look-up finds it with fuel 7, and with `importFuel = 6` the model answers `none` (it would
+    report REF_NONEXISTENT; check-express accepts the file: `SCOPEfind_for_rename` has no bound).  So `ImportsWF` cannot be restated with
+    `HandsOut` for the model as it is; the fuel should count the items.  No generated input has more than two renamed items in a
+    chain through one pair of schemas, which is why the correspondence never showed it -/
+theorem C04_import_fuel_insufficient_witness :
+    importFuel zigzagFile = 6 ∧
+    exportOf zigzagFile true (fun _ => false) (importFuel zigzagFile) "t0" "a1" = none ∧
+    exportOf zigzagFile true (fun _ => false) 7 "t0" "a1" = some ⟨"t0", "c", .entity⟩ ∧
+    HandsOut zigzagFile "t0" "a1" ⟨"t0", "c", .entity⟩ := by
+  refine ⟨by decide, by decide, by decide, ?_⟩
+  exact exportOf_sound zigzagFile true (fun _ => false) 7 "t0" "a1" _ (by decide)
+
 /-! ## `FileWF` is inhabited by a non-trivial file (and refuted by a one-token change of it)
 
 A two-schema file with inheritance across the schema border: `client` interfaces `lib.p` under the new name `pp`; `e SUBTYPE OF (pp)`
